@@ -16,7 +16,8 @@ CLAIMS = {
             "over-aligned; callees inlined; branches refined on the engaged flag) decides for all histories the per-"
             "operation invariant 'raw storage holds a live payload iff the flag is set', no payload operation on empty "
             "storage, no construction over a live payload, destructor leaves nothing alive; comparisons dereference only "
-            "engaged operands; storage alignment from clang's record layout; Any: holder dereferences dominated by a "
+            "engaged operands; storage alignment from clang's record layout; for payloads that are not trivially copyable the storage bytes "
+            "are used only as a placement-new address or through a cast to T* (never copied/swapped/filled as bytes); Any: holder dereferences dominated by a "
             "validity test, clone-on-copy, get<T> guarded by the exact-type test and otherwise throwing std::runtime_error. "
             "These are necessary structural conditions of the property decided on every path; value equality of what is "
             "returned is not decided.",
@@ -26,13 +27,17 @@ CLAIMS = {
 }
 
 CLAIMS['C16'] = ('proof',
-    'interprocedural abstract interpretation over clang CFGs (non-NUL look-ahead domain, callee summaries, recursion fixpoint), loop-progress rule, call-graph throw-type rule',
+    'interprocedural abstract interpretation over clang CFGs (non-NUL look-ahead domain, callee summaries, recursion fixpoint), loop-progress rule, call-graph throw-type / noexcept-barrier / static-state rules',
     "Proof of the memory-safety and termination clauses: an abstract interpreter over the CFGs of every function reachable "
     "from parseXML (domain: number of leading bytes known non-NUL, anchor byte behind the cursor, excluded byte values; "
     "branch refinement on character tests incl. user predicates through their own summaries; fixpoint for parseNode's "
     "recursion) shows that for every byte string in a NUL-terminated buffer the cursor never passes the terminator, no "
     "byte outside the buffer is read (forwards or backwards), and every loop iteration consumes input; readXML is shown "
-    "to build that NUL-terminated buffer and every throw reachable from it to be std::runtime_error. Obligations = one per "
+    "to build that NUL-terminated buffer and every throw reachable from it to be std::runtime_error; no function with a "
+    "non-throwing exception specification on that call graph can reach a throw (no std::terminate instead of an error), "
+    "and no mutable static/thread-local state read by the parser is left changed on a normal or exceptional exit (the result "
+    "does not depend on earlier calls); pure std::string out-parameters are written on every successful return; begin/end "
+    "cursor pairs are ordered when used as ranges. Obligations = one per "
     "analysed function and clause; all must be discharged. The faithfulness clause (returned tree equals the generating "
     "tree) is a value-level property and is not decided.",
     "Trusted: clang 14 CFG; isalpha/isdigit/isspace are false at NUL; the abstract transfer functions of the rule engine "
@@ -56,9 +61,9 @@ TECH = {
             'Built-in arithmetic element types, no NaN, no UB. Not decided: floating-point rounding (any association order of a sum is accepted); the scalar kernels rcp/rsqrt/madd (C07).'),
     'C05': ('order-atom truth tables, lattice-shape matching, polynomial normal form, corner-set enumeration on the dependent AST and typed instantiations; LLVM-IR identities against per-axis definitions',
             'Relies on C04 for vec min/max/anyLessThan. Not decided: rounding ("within rounding"), NaN bounds, correctness of xfmPoint itself (C06), conditioning of the affine map; clamp on inverted ranges is a precondition.'),
-    'C06': ('translation validation of identity drivers: LLVM-IR value-graph normal form of both sides (real compiler does overload resolution/inlining), exact rational-function identity with sympy',
+    'C06': ('translation validation of identity drivers: LLVM-IR value-graph normal form of both sides (real compiler does overload resolution/inlining), exact rational-function identity with sympy; AST/CFG shape rules (linear program over branch guards, dominance, interval iteration of the Newton step in the singular-value domain)',
             'Real-number semantics of float operations; non-zero denominators; sin^2+cos^2=1 and the double-angle formulas as trig facts. Not decided: '
-            'tolerance vs condition number (rounding), slerp, orthogonal(), frame() (outside the IR fragment), SIMD rcp/rsqrt approximations (C07). '
+            'tolerance vs condition number (rounding) beyond the conditioning/orthogonal() clauses, the slerp interpolation formula, frame() (outside the IR fragment), SIMD rcp/rsqrt approximations (C07); orthogonal() assumes singular values in [1/64, 64]. '
             'AffineSpaceT::rotate(p, quaternion) cannot be instantiated at all (observation).'),
     'C07': ('LLVM-IR value-graph normal form of identity drivers + interval bound of the Newton-Raphson error polynomial; AST purity rule',
             'Real-number reading of float operations with relative rounding <= 2^-24 per operation (no under/overflow); rcpss/rsqrtss estimate error '
